@@ -1,6 +1,7 @@
 """Enumeration and discharge of panic-capable sites (shared by C01, C04, C11, C12, C19)."""
 import json, os, re
 from .. import facts, sym, cfg
+from . import arith
 from ..report import VERIF
 
 PANIC_CALLS = ("unwrap", "expect", "unwrap_unchecked", "to_int_unchecked", "get_unchecked", "get_unchecked_mut", "split_at", "split_at_mut", "copy_from_slice", "swap", "swap_remove", "remove", "insert", "push", "extend_from_slice", "truncate_unchecked")
@@ -322,6 +323,88 @@ def expand(S, e, depth=0):
     return tuple(out)
 
 
+def _strip_try(x):
+    """get(..) under `?` / ok_or / ok_or_else / branch wrappers -> the get(..) call, plus whether a `branch` was crossed"""
+    crossed = False
+    n = 0
+    while isinstance(x, tuple) and x and x[0] == "call" and n < 6:
+        nm = x[1].split("::")[-1]
+        if nm == "branch":
+            crossed = True
+            x = x[3][0]
+        elif nm in ("ok_or", "ok_or_else", "ok", "as_ref", "copied", "cloned") and x[3]:
+            x = x[3][0]
+        else:
+            break
+        n += 1
+    return x, crossed
+
+
+def _range_evidence(conds, base, ln, bounds):
+    """facts about the length of `base` that follow from what was already done with it on this path:
+    * `base.get(a..b)` / `base.get(..b)` returned Some  =>  b <= len(base)
+    * a number of bytes reported consumed by lexical-core's partial parsers on `base`  =>  at most len(base) [trusted]"""
+    out = []
+    for e, v, d in conds:
+        if e[0] != "discr" or not isinstance(e[1], tuple):
+            continue
+        g, crossed = _strip_try(e[1])
+        some = (v == 0) if crossed else (v == 1)
+        if not some or not (g[0] == "call" and g[1].split("::")[-1] in ("get", "get_mut") and len(g[3]) == 2 and sym.norm(g[3][0]) == base):
+            continue
+        r = sym.norm(g[3][1])
+        if r[0] == "aggr" and r[2] and r[2].split("::")[-1] in ("Range", "RangeTo") and r[4]:
+            out.append((("binop", "Le", r[4][-1], ln), True, d, "get(..end) on the same slice returned Some"))
+    for b in bounds:
+        for x in sym.walk(b):
+            # (parse_partial(base) as Ok).0.1
+            if x[0] == "field" and x[2] == "1" and x[1][0] == "field" and x[1][2] == "0" and x[1][1][0] == "downcast" and x[1][1][2] == "Ok":
+                c = x[1][1][1]
+                if c[0] == "call" and c[1].split("::")[-1] in ("parse_partial", "parse_partial_with_options") and c[3] and sym.norm(c[3][0]) == base:
+                    out.append((("binop", "Le", x, ln), True, -1, "trusted: lexical-core's partial parser consumes at most its input"))
+    return out
+
+
+_SELF = ("self-reference",)
+
+
+def subslice_root(S, e, depth=0, stack=()):
+    """the slice expression that `e` is - on every path - a sub-slice (or view) of: follows slice-pattern bindings
+    (`[first, rest @ ..]`), views (deref / as_slice) and variables all of whose definitions are such sub-slices of one
+    common root (the loop `while let [.., rest @ ..] = v { v = rest }`). None when e is not known to be derived."""
+    r = _subroot(S, e, depth, stack)
+    return None if r is None or r == _SELF else r
+
+
+def _subroot(S, e, depth, stack):
+    if depth > 10 or not isinstance(e, tuple) or not e:
+        return None
+    e = sym.norm(e)
+    if e[0] == "var" and e[1] in stack:
+        return _SELF
+    if e[0] == "subslice":
+        r = _subroot(S, e[1], depth + 1, stack)
+        return r if r is not None else e[1]
+    if e[0] == "call" and e[1].split("::")[-1] in _VIEWS and e[3]:
+        r = _subroot(S, e[3][0], depth + 1, stack)
+        return r if r is not None else sym.norm(e[3][0])
+    if e[0] in ("ref", "deref") and len(e) > 1 and isinstance(e[1], tuple):
+        return _subroot(S, e[1], depth + 1, stack)
+    if e[0] == "var":
+        roots = set()
+        for d in S.defs_of(e[1]):
+            d = sym.norm(d)
+            r = _subroot(S, d, depth + 1, stack + (e[1],))
+            if r == _SELF:
+                continue
+            roots.add(sym.norm(r if r is not None else d))
+        if len(roots) == 1:
+            r = roots.pop()
+            return r if r != e else None
+        return None
+    return None
+
+
 class Discharger:
     def __init__(self, unit, prog):
         self.unit = unit
@@ -341,6 +424,8 @@ class Discharger:
         return self._S[id(mir)]
 
     def try_discharge(self, s):
+        S_ = self.S(s.mir)
+        arith.SUBROOT = lambda e: subslice_root(S_, e)
         r = self._try(s)
         if r or s.extra.get("ctx"):
             return r
@@ -476,6 +561,25 @@ class Discharger:
                         ds = [int(v["discr"]) for v in adt["variants"]]
                         if ds and 0 <= min(ds) and max(ds) < bits:
                             return "shift amount is an enum discriminant in [%d,%d] < %d bits" % (min(ds), max(ds), bits)
+                if amount[0] == "call" and bits and s.body.j.get("vis") == "Restricted" and not s.body.impl_trait:
+                    # a crate-private generic helper shifting by `x.method()`: every implementation of that trait method
+                    # in the workspace returns an enum discriminant below the operand width
+                    meth = amount[1].split("::")[-1]
+                    trait = "::".join(amount[1].split("::")[:-1]).split("scpi_contrib::")[-1].split("scpi::")[-1]
+                    impls = [b for u_ in self.prog.units for b in u_.bodies if b.kind == "AssocFn" and b.name == meth and b.impl_trait and trait.split("<")[0] in b.impl_trait]
+                    rng = []
+                    for b in impls:
+                        e = widen(sym.norm(sym.Sym(b.mir).local(0)))
+                        if e[0] != "discr":
+                            rng = None
+                            break
+                        adt = b.unit.adts.get(b.unit.qualify(e[2], b.unit.crate)) or b.unit.adts.get(e[2])
+                        if adt is None:
+                            rng = None
+                            break
+                        rng += [int(v["discr"]) for v in adt["variants"]]
+                    if impls and rng and 0 <= min(rng) and max(rng) < bits:
+                        return "shift amount is %s() of a workspace type: all %d implementations return an enum discriminant in [%d,%d] < %d bits" % (meth, len(impls), min(rng), max(rng), bits)
             if msg == "Overflow(Add)":
                 a, b = ops
                 if b[0] == "int" and b[1] <= 16:
@@ -575,7 +679,8 @@ class Discharger:
                     if pps and all(on_cursor(pp[3][0]) for pp in pps):
                         return "audit: nth(len-1) with len returned by lexical parse_partial on the same cursor's slice [trusted: len <= slice length]"
                 # ArrayVec error queue overflow path (R12.5)
-                if s.body.npath.endswith("ErrorQueue>::push_back_error") and "ArrayVec" in (s.body.impl_self or ""):
+                # (the idiom is about operations on one fixed-capacity ArrayVec; it may live in the trait impl or in a helper)
+                if src[0] == "call" and "arrayvec::ArrayVec::" in (src[1] + " " + str(src[2])):
                     for c, v, _ in conds:
                         failed = (c[0] == "call" and c[1].split("::")[-1] == "is_err" and v is True and "try_push" in repr(c)) or \
                                  (c[0] == "call" and c[1].split("::")[-1] == "is_ok" and v is False and "try_push" in repr(c)) or \
@@ -783,15 +888,39 @@ class Discharger:
                     kind = rng[2].split("::")[-1]
                     lo = rng[4][0] if kind in ("Range", "RangeFrom") else ("int", 0, "usize")
                     hi = rng[4][-1] if kind in ("Range", "RangeTo") else ln
-                    F = arith.build(conds, [ln, lo, hi], ex, unsigned=[lo, hi], stable=stable)
+                    extra4 = _range_evidence(conds, base, ln, [lo, hi])
+                    extra = [x[:3] for x in extra4]
+                    F = arith.build(list(conds) + extra, [ln, lo, hi], ex, unsigned=[lo, hi], stable=stable)
                     if F.proves_ge(ln, arith.untry(hi)) and F.proves_ge(arith.untry(hi), arith.untry(lo)):
-                        return "A: range bounds lo <= hi <= len(slice) follow from the dominating conditions and slice axioms"
+                        return "A: range bounds lo <= hi <= len(slice) follow from the dominating conditions and slice axioms" + (" [with: %s]" % "; ".join(sorted({x[3] for x in extra4})) if extra4 else "")
+                    # a bound kept in a variable assigned at several places (a running count): each assigned value is within
+                    # the slice on its own
+                    def within(bound, upper_is_len):
+                        if bound[0] != "var":
+                            return False
+                        ds = [sym.norm(d) for d in S.defs_of(bound[1])]
+                        if len(ds) < 2:
+                            return False
+                        for d in ds:
+                            Fd = arith.build(list(conds) + extra, [ln, d], ex, unsigned=[d], stable=stable)
+                            if not Fd.proves_ge(ln, arith.untry(d)):
+                                return False
+                        return True
+                    if kind == "RangeTo" and within(hi, True):
+                        return "A: every value assigned to the range end is at most len(slice) (running count of consumed bytes of this slice)"
+                    if kind == "RangeFrom" and within(lo, True):
+                        return "A: every value assigned to the range start is at most len(slice)"
             if nm in ("remove", "swap_remove") and ("alloc::vec" in path or "arrayvec" in path) and len(args) == 2:
                 # container.remove(i): i < len(container), with the container untouched since the guard
                 recv = args[0]
                 ln = ("call", "len", "len", (recv,), -1)
-                guards = [(e, v, d) for e, v, d in conds if (e[0] == "call" and e[1].split("::")[-1] in ("is_empty", "len") and e[3] and sym.norm(e[3][0]) == recv)
-                          or (e[0] == "binop" and any(x[0] == "call" and x[1].split("::")[-1] == "len" and x[3] and sym.norm(x[3][0]) == recv for x in sym.walk(e)))]
+                guards = []
+                for e, v, d in conds:
+                    ne = _nonempty_evidence(e, v, recv, ln)
+                    if ne is not None:
+                        guards.append((ne[0], ne[1], d))
+                    elif _rename_len(e, recv, ln) != e or (e[0] == "call" and e[1].split("::")[-1] == "is_empty" and e[3] and _is_view_of(e[3][0], recv)):
+                        guards.append((e, v, d))
                 clean = [g for g in guards if not any(advances(mir, S, b_, recv) for b_ in blocks_between(mir, g[2], s.bi) - {s.bi})]
                 # every spelling of len(recv) in the clean guards denotes the current length
                 cl = []
@@ -926,13 +1055,37 @@ def _const_bool(e):
     return None
 
 
+_VIEWS = ("deref", "deref_mut", "as_slice", "as_mut_slice", "as_ref", "as_mut", "borrow", "borrow_mut")
+
+
+def _is_view_of(x, recv):
+    """x denotes the same elements as recv: recv itself, or deref / as_slice / as_ref ... of it"""
+    n = 0
+    while isinstance(x, tuple) and x and n < 4:
+        if sym.norm(x) == recv:
+            return True
+        if x[0] == "call" and x[1].split("::")[-1] in _VIEWS and x[3]:
+            x = x[3][0]
+            n += 1
+            continue
+        if x[0] in ("ref", "deref") and len(x) > 1 and isinstance(x[1], tuple):
+            x = x[1]
+            n += 1
+            continue
+        return False
+    return False
+
+
 def _rename_len(e, recv, ln):
-    """replace every `len(recv)` call in e by the canonical atom ln; is_empty(recv) is kept (handled by the prover)"""
+    """replace every spelling of the length of recv in e (len(recv), the slice length of a view of recv) by the
+    canonical atom ln; is_empty(view of recv) becomes is_empty(recv) (handled by the prover)"""
     if not isinstance(e, tuple) or not e or not isinstance(e[0], str):
         return e
-    if e[0] == "call" and e[1].split("::")[-1] == "len" and e[3] and sym.norm(e[3][0]) == recv:
+    if e[0] == "call" and e[1].split("::")[-1] == "len" and e[3] and _is_view_of(e[3][0], recv):
         return ln
-    if e[0] == "call" and e[1].split("::")[-1] == "is_empty" and e[3] and sym.norm(e[3][0]) == recv:
+    if e[0] == "unop" and e[1] == "PtrMetadata" and _is_view_of(e[2], recv):
+        return ln
+    if e[0] == "call" and e[1].split("::")[-1] == "is_empty" and e[3] and _is_view_of(e[3][0], recv):
         return ("call", e[1], e[2], (recv,), e[4])
     out = []
     for x in e:
@@ -943,6 +1096,23 @@ def _rename_len(e, recv, ln):
         else:
             out.append(x)
     return tuple(out)
+
+
+def _nonempty_evidence(e, v, recv, ln):
+    """a condition saying that first()/last() of (a view of) recv is Some - through `?`, `if let` or `match` - as the
+    arithmetic fact len(recv) >= 1; None when e is not of that form"""
+    x = e
+    if x[0] == "discr" and isinstance(x[1], tuple):
+        x = x[1]
+        some = None
+        if x[0] == "call" and x[1].split("::")[-1] == "branch" and x[3]:
+            some = (v == 0)       # ControlFlow::Continue
+            x = x[3][0]
+        else:
+            some = (v == 1)       # Option::Some
+        if x[0] == "call" and x[1].split("::")[-1] in ("first", "last", "first_mut", "last_mut", "split_first", "split_last") and x[3] and _is_view_of(x[3][0], recv):
+            return (("binop", "Ge", ln, ("int", 1, "usize")), bool(some))
+    return None
 
 
 def _subexprs(e):
